@@ -66,6 +66,10 @@ func c10Build(c c10Case) *txref.Tx {
 		if c.Mix == 4 && i == 0 {
 			sc = []byte{0x6a}
 		}
+		if c.Mix >= 5 && i == c.NOut-1 {
+			// the LAST output is one of the accounting check's script kinds (near-data scripts)
+			sc = c11OutScript([]int{2, 3, 8, 9, 10, 11, 12, 4}[c.Mix-5])
+		}
 		t.Outs = append(t.Outs, txref.Out{Sats: uint64(600 + i), Script: sc})
 	}
 	return t
@@ -238,7 +242,7 @@ var c10Quotes = []quote{
 
 func init() {
 	p := register(&Prop{ID: "C10", Level: "exploration",
-		Rule: "exhaustive product: inputs 1..3 P2PKH (unsigned / signed / first signed / last signed) x output counts {0,1,2,3,251,252,253,254} x output mix (all standard / first data / alternating data / first the payload-less `00 6a` / first the bare `6a`) x 11 change destinations (address, P2PKH script, 23-byte P2SH form, 35- and 67-byte P2PK, 1-, 100- and 300-byte scripts, existing output first/last/out of range) x 15 fee quotes (incl. >1 sat/byte, non-integral rates, unequal std/data rates and denominators) x 14 placements of the available amount relative to the big-integer reference thresholds (inputs<outputs, 0, fee-2..fee+3, fee+dust-1..fee+dust+2, just above the slack, ample). Oracle = the post-conditions of the statement computed with the reference fee model: earlier outputs and inputs untouched, outputs <= inputs, if changed: quoted fee(estimated final size) <= fee left <= quoted fee + ceil(9 bytes) + 9; if unchanged: remainder after the fee a change output needs <= dust (+ the same slack). distinct_nontrivial = distinct cases on which change returned without error",
+		Rule: "exhaustive product: inputs 1..3 P2PKH (unsigned / signed / first signed / last signed) x output counts {0,1,2,3,251,252,253,254} x output mix (all standard / first data / alternating data / first the payload-less `00 6a` / first the bare `6a` / last one of 8 near-data scripts: `6a 00`, `6a 01 42`, `00 6a` + push, `00`, `00 51 6a`, empty, OP_RETURN not first, 75-byte payload) x 11 change destinations (address, P2PKH script, 23-byte P2SH form, 35- and 67-byte P2PK, 1-, 100- and 300-byte scripts, existing output first/last/out of range) x 15 fee quotes (incl. >1 sat/byte, non-integral rates, unequal std/data rates and denominators) x 14 placements of the available amount relative to the big-integer reference thresholds (inputs<outputs, 0, fee-2..fee+3, fee+dust-1..fee+dust+2, just above the slack, ample). Oracle = the post-conditions of the statement computed with the reference fee model: earlier outputs and inputs untouched, outputs <= inputs, if changed: quoted fee(estimated final size) <= fee left <= quoted fee + ceil(9 bytes) + 9; if unchanged: remainder after the fee a change output needs <= dust (+ the same slack). distinct_nontrivial = distinct cases on which change returned without error",
 	})
 	sp := NewSpace(p, "change", c10Check)
 	p.Run = func(r *rep.Run, thorough bool) {
@@ -259,8 +263,14 @@ func init() {
 						continue // "last only" is "all" for one input
 					}
 					for _, nout := range nouts {
-						for mix := 0; mix < 5; mix++ {
+						for mix := 0; mix < 13; mix++ {
 							if nout == 0 && mix > 0 {
+								continue
+							}
+							if nout > 3 && mix >= 5 {
+								continue
+							}
+							if !thorough && mix >= 5 && (nin > 1 || sg > 0) {
 								continue
 							}
 							if !thorough && nout > 3 && (mix >= 2 || nin > 1) {
